@@ -102,7 +102,7 @@ def replay(beh, seed, mt):
     R = _setup(beh, W, mt)
     X = reg("xin", 16)
     fails = []
-    out = {"n": 0, "fails": fails, "skipped": 0, "symbolic": 0, "constant": 0, "dropped": 0}
+    out = {"n": 0, "fails": fails, "skipped": 0, "symbolic": 0, "constant": 0, "dropped": 0, "drift": 0}
     m = mapper()
     sa = _state(beh, R, W)
     nmem = len(beh["mem0"])
@@ -126,29 +126,34 @@ def replay(beh, seed, mt):
         out["n"] += 1
         exp = {"a": st["regs"]["a"], "b": st["regs"]["b"], "p": BASE + st["regs"]["p"], "q": BASE + st["regs"]["q"]}
         bad = []
-        for route, o in (("B", ob), ("A", oa)):
-            for r in ("a", "b", "p", "q"):
-                if o[r] is None:
+        # per location: b = sigma0 >> m, a = amoco's concrete route, e = the concrete state TLC computed.
+        # The property is violated when b is a constant different from the concrete execution: b != e, or
+        # b != a with both constants.  When both routes agree on a constant the model rejects (a == b != e)
+        # amoco's memory model itself is off (C08/C09's subject): drift, not a C02 failure.
+        locs = [(r, oa[r], ob[r], exp[r]) for r in ("a", "b", "p", "q")]
+        locs += [("mem+%d" % i, oa["mem"][i], ob["mem"][i], st["mem"][i]) for i in range(nmem)]
+        for loc, a, b, e in locs:
+            for x in (a, b):
+                if x is None:
                     out["symbolic"] += 1
-                    continue
-                out["constant"] += 1
-                if o[r] != exp[r]:
-                    bad.append({"step": j + 1, "route": route, "clause": "Lockstep", "loc": r,
-                                "got": o[r], "expected": exp[r], "op": st["op"]["op"]})
-            for i in range(nmem):
-                g = o["mem"][i]
-                if g is None:
-                    out["symbolic"] += 1
-                    continue
-                out["constant"] += 1
-                if g != st["mem"][i]:
-                    # named deviation RshiftDropsStores (see specs/LockstepTrace.tla): no-aliasing on, memory
-                    # tracing off, route B, the byte still holds its sigma0 value
-                    if route == "B" and beh["noal"] and not mt and g == beh["mem0"][i]:
-                        out["dropped"] += 1
-                        continue
-                    bad.append({"step": j + 1, "route": route, "clause": "Lockstep", "loc": "mem+%d" % i,
-                                "got": g, "expected": st["mem"][i], "op": st["op"]["op"]})
+                else:
+                    out["constant"] += 1
+            if b is None:
+                if a is not None and a != e:
+                    out["drift"] += 1
+                continue
+            if b == e and (a is None or a == e):
+                continue
+            if loc.startswith("mem") and beh["noal"] and not mt and b == beh["mem0"][int(loc[4:])] and (a is None or a == e):
+                # named deviation RshiftDropsStores (see specs/LockstepTrace.tla): no-aliasing on, memory
+                # tracing off, route B, the byte still holds its sigma0 value
+                out["dropped"] += 1
+                continue
+            if a is not None and a == b:
+                out["drift"] += 1
+                continue
+            bad.append({"step": j + 1, "route": "B", "clause": "Lockstep", "loc": loc, "got": b, "expected": e,
+                        "concrete": a if a is not None else -1, "op": st["op"]["op"]})
         if bad:
             fails.extend(bad)
             break
@@ -159,8 +164,8 @@ def replay_chunk(args):
     from . import tlc, c02isa
     path, lo, hi, seed, stride, offset = args
     c02isa.quiet()
-    res = {"n": 0, "steps": 0, "skipped": 0, "symbolic": 0, "constant": 0, "dropped": 0, "fails": [], "kinds": set(),
-           "sample": None}
+    res = {"n": 0, "steps": 0, "skipped": 0, "symbolic": 0, "constant": 0, "dropped": 0, "drift": 0, "fails": [],
+           "kinds": set(), "sample": None}
     for idx, beh in enumerate(tlc.iter_spool_range(path, lo, hi)):
         if stride > 1 and (idx % stride) != offset:
             continue
@@ -172,6 +177,7 @@ def replay_chunk(args):
             res["symbolic"] += o["symbolic"]
             res["constant"] += o["constant"]
             res["dropped"] += o["dropped"]
+            res["drift"] += o["drift"]
             kinds = tuple(s["op"]["op"] + ":" + s["op"]["e"]["k"] for s in beh["h"])
             res["kinds"].add((beh["noal"], beh["en"], mt) + kinds)
             if o["fails"]:
